@@ -5,6 +5,7 @@ package c07
 
 import (
 	"bytes"
+	"reflect"
 	"encoding/binary"
 	"fmt"
 	"io"
@@ -93,28 +94,56 @@ func marshaled(ms ...interface{ Marshal() ([]byte, error) }) [][]byte {
 	return out
 }
 
-func smbMessages(n int) [][]byte {
+func smbExample(name string, seed int) []byte {
 	gen := rapid.Custom(func(t *rapid.T) []byte {
-		names := smbgen.Names()
-		name := names[rapid.IntRange(0, len(names)-1).Draw(t, "struct")]
 		e, _ := smbgen.ByName(name)
 		cmd := smbgen.New(e)
+		rapid.Bool().Draw(t, "_") // structures without fields draw nothing; rapid insists on one draw
 		smbgen.Fill(t, cmd, smbgen.Options{MaxBytes: 12})
-		m := message.NewMessage()
-		m.AddCommand(cmd)
-		if e.Response {
-			m.Header.SetFlags(0x80)
-		}
-		b, err := m.Marshal()
-		if err != nil {
-			return nil
-		}
-		return b
+		return encodeSMB(e, cmd)
 	})
+	return gen.Example(seed)
+}
+
+func encodeSMB(e smbgen.Entry, cmd smbgen.Cmd) (b []byte) {
+	defer func() {
+		if recover() != nil {
+			b = nil
+		}
+	}()
+	m := message.NewMessage()
+	m.AddCommand(cmd)
+	if e.Response {
+		m.Header.SetFlags(0x80)
+	}
+	b, err := m.Marshal()
+	if err != nil {
+		return nil
+	}
+	return b
+}
+
+// smbMessages: every structure of the inventory populated twice (so that no decoder is reached only
+// through its empty form), n more picked at random, and one minimal message per (code, direction).
+func smbMessages(n int) [][]byte {
 	var out [][]byte
-	for i := 0; len(out) < n && i < 4*n; i++ {
-		if b := gen.Example(i); len(b) > 0 {
+	names := smbgen.Names()
+	for _, name := range names {
+		got := 0
+		for seed := 0; got < 2 && seed < 8; seed++ {
+			if b := smbExample(name, seed); len(b) > 0 {
+				out = append(out, b)
+				got++
+			}
+		}
+	}
+	pick := rapid.Custom(func(t *rapid.T) []byte {
+		return smbExample(names[rapid.IntRange(0, len(names)-1).Draw(t, "struct")], rapid.IntRange(8, 1<<20).Draw(t, "seed"))
+	})
+	for i, k := 0, 0; k < n && i < 4*n; i++ {
+		if b := pick.Example(i); len(b) > 0 {
 			out = append(out, b)
+			k++
 		}
 	}
 	// one minimal message per implemented (code, direction)
@@ -127,6 +156,64 @@ func smbMessages(n int) [][]byte {
 			hb[9] = 0x80
 		}
 		out = append(out, append(hb, 0, 0, 0))
+	}
+	return out
+}
+
+// smbCountFaults: structured faults. A count/length/offset field and the buffer it describes are kept
+// consistent by the caller, not by Marshal, so a hostile peer is modelled by encoding a populated
+// structure whose count fields lie: each one alone driven to boundary values, and all of them together
+// set to the same value (two lengths that each fit but do not fit together are out of reach of
+// single-position corruption).
+func smbCountFaults() [][]byte {
+	var out [][]byte
+	for _, e := range smbgen.Inventory() {
+		rels := smbgen.Relations[e.Name]
+		if len(rels) == 0 {
+			continue
+		}
+		for seed := 0; seed < 2; seed++ {
+			gen := rapid.Custom(func(t *rapid.T) [][]byte {
+				var res [][]byte
+				base := smbgen.New(e)
+				smbgen.Fill(t, base, smbgen.Options{MaxBytes: 24})
+				snap := smbgen.Snapshot(base)
+				with := func(set func(name string, cur uint64) (uint64, bool)) {
+					cmd := smbgen.New(e)
+					smbgen.Restore(cmd, snap)
+					rv := reflect.ValueOf(cmd).Elem()
+					for _, r := range rels {
+						f := rv.FieldByName(r.Count)
+						if !f.IsValid() || !f.CanUint() {
+							continue
+						}
+						if v, ok := set(r.Count, f.Uint()); ok {
+							max := uint64(1)<<(8*uint(f.Type().Size())) - 1
+							f.SetUint(v & max)
+						}
+					}
+					if b := encodeSMB(e, cmd); len(b) > 0 {
+						res = append(res, b)
+					}
+				}
+				for _, r := range rels {
+					for _, v := range []func(cur uint64) uint64{
+						func(c uint64) uint64 { return 0 }, func(c uint64) uint64 { return c + 1 }, func(c uint64) uint64 { return c - 1 },
+						func(c uint64) uint64 { return 2*c + 1 }, func(c uint64) uint64 { return 0x7F }, func(c uint64) uint64 { return 0xFF },
+						func(c uint64) uint64 { return 0x7FFF }, func(c uint64) uint64 { return 0xFFFF }, func(c uint64) uint64 { return 0xFFFFFFFF },
+					} {
+						target, f := r.Count, v
+						with(func(name string, cur uint64) (uint64, bool) { return f(cur), name == target })
+					}
+				}
+				for _, all := range []uint64{1, 13, 25, 40, 200, 0x7FFF, 0xFFFF} {
+					a := all
+					with(func(name string, cur uint64) (uint64, bool) { return a, true })
+				}
+				return res
+			})
+			out = append(out, gen.Example(seed)...)
+		}
 	}
 	return out
 }
